@@ -926,6 +926,11 @@ func (g *fgen) event() *genEvent {
 	}
 	e.File = string(fb)
 	e.Line = []int{0, 1, 9, 10, 99, 1000, 65535, 65536, 123456, 9999999999, 10000000000, 12345678901, math.MaxInt64, -1, math.MinInt64}[r.IntN(15)]
+	if r.IntN(3) == 0 {
+		// ordinary line numbers, dense around powers of two and ten (tables of precomputed decimal forms end somewhere)
+		k := []int{64, 100, 128, 256, 512, 1000, 1024, 2048, 4096, 8192, 10000, 16384, 32768, 100000, 1 << 20}[r.IntN(15)]
+		e.Line = k + r.IntN(5) - 2
+	}
 	e.Tag = []string{"_def", "_app_def", "abc", "a_b_c_d", "_com_request_in", "x1_y2"}[r.IntN(6)]
 	if r.IntN(3) == 0 {
 		e.CtxString = []string{"trace-0a88", "ctx string with spaces", "req=1;user=2", "ünï"}[r.IntN(4)]
